@@ -27,6 +27,7 @@ type FuncContract struct {
 	Name      string
 	Params    []string // spec blocks: parameter names
 	Requires  []*Clause
+	Assumes   []*Clause // preconditions that call sites do not check (explicit assumptions)
 	Ensures   []*Clause
 	LoopInv   map[int][]*Clause
 	LoopDec   map[int]*Clause
@@ -329,6 +330,14 @@ func (cs *ContractSet) parseLines(fname string, lines []struct {
 				}
 			} else {
 				cs.errf(fname, l.line, "requires outside a block")
+			}
+		case "assumes":
+			if cur == nil {
+				cs.errf(fname, l.line, "assumes outside a func block")
+				continue
+			}
+			if c := mkClause(rest, l.line, len(cur.Assumes)+1); c != nil {
+				cur.Assumes = append(cur.Assumes, c)
 			}
 		case "ensures":
 			if curLemma != nil {
